@@ -131,6 +131,16 @@ func c14ExprCtxs() []c14Ctx {
 		{"is_int(value) | {}", 'B', "NTLJ", true, 'B'},
 		{"{} and is_int(value)", 'B', "NTLJ", true, 'B'},
 		{"is_int(value) or {}", 'B', "NTLJ", true, 'B'},
+		// the other operand is a constant that decides the result: simplification
+		// must not make the fault in the dropped operand disappear
+		{"{} & false", 'B', "NTLJ", true, 'B'},
+		{"false & {}", 'B', "NTLJ", true, 'B'},
+		{"true | {}", 'B', "NTLJ", true, 'B'},
+		{"{} | true", 'B', "NTLJ", true, 'B'},
+		{"{} & 1 = 2", 'B', "NTLJ", true, 'B'},
+		{"1 = 1 | {}", 'B', "NTLJ", true, 'B'},
+		{"{} and true", 'B', "NTLJ", true, 'B'},
+		{"false or {}", 'B', "NTLJ", true, 'B'},
 		{"{} = 1", 'N', "TBLJ", true, 'B'},
 		{"1 < {}", 'N', "TBLJ", true, 'B'},
 		{"{} != 'a'", 'T', "NBLJ", true, 'B'},
